@@ -45,9 +45,11 @@ Begin(i) ==
 
 Iter(site) ==
     /\ site \in Sites
-    \* a new main-loop iteration means every copy loop of the previous instruction is over
-    /\ since' = [s \in Sites |-> IF s = site THEN since[s] + 1
-                                  ELSE IF site = MainSite /\ s \in CopySites THEN 0 ELSE since[s]]
+    \* a new main-loop iteration means every copy loop of the previous instruction is over: its next
+    \* instance may poll first at any of its first iterations (polled' below) - but the iterations a loop
+    \* ran since its last poll are carried over from instance to instance: a loop whose instances are each
+    \* shorter than I must not run for ever without polling ("polls track the amount of work done")
+    /\ since' = [s \in Sites |-> IF s = site THEN since[s] + 1 ELSE since[s]]
     /\ polled' = [s \in Sites |-> IF site = MainSite /\ s \in CopySites THEN FALSE ELSE polled[s]]
     /\ cur' = site
     /\ afterMain' = IF stopSeen /\ site = MainSite THEN afterMain + 1 ELSE afterMain
